@@ -475,7 +475,11 @@ func (w *world) judge(c *fetchCase, o observed, pos string) {
 					if hi == 0 {
 						which = "first-url"
 					}
-					r.Violation("secret-in-error:"+which+":"+part+":validator-style="+c.Validator.Style+":"+pos,
+					via := "fetch-error"
+					if pos == "rejected-first-url" {
+						via = "validator-text:style=" + c.Validator.Style
+					}
+					r.Violation("secret-in-error:"+which+":"+part+":"+via,
 						"a returned error contains the "+part+" of a URL in the chain", wit)
 				}
 			}
@@ -525,8 +529,10 @@ func (w *world) zstdBody(decoded []byte, declareSize bool) step {
 		comp = w.enc.EncodeAll(decoded, nil)
 	} else {
 		var buf bytes.Buffer
-		zw, _ := zstd.NewWriter(&buf, zstd.WithEncoderConcurrency(1))
-		// streaming writes: the frame header carries no content size
+		// Streaming writes: the frame header carries no content size. A 1 KiB
+		// window keeps the frame's window below small decompression caps, so
+		// the decoder's own window check does not pre-empt the cap under test.
+		zw, _ := zstd.NewWriter(&buf, zstd.WithEncoderConcurrency(1), zstd.WithWindowSize(1<<10))
 		for off := 0; off < len(decoded); off += 1 << 16 {
 			end := off + 1<<16
 			if end > len(decoded) {
@@ -777,15 +783,19 @@ func (w *world) armRandom(n int) {
 			notes = append(notes, fmt.Sprintf("body %d bytes, fetch cap %d, content-length=%v", st.encodedLen, c.MaxFetch, !st.noCL))
 			r.Class(fmt.Sprintf("body-vs-fetch-cap:%+d:cl=%v", st.encodedLen-c.MaxFetch, !st.noCL))
 		case mode < 4: // zstd around the decompression cap
-			pad := rng.IntN(5000)
+			pad := 2048 + rng.IntN(5000)
 			dec := append(append([]byte(nil), w.ipc...), bytes.Repeat([]byte{byte(rng.IntN(3))}, pad)...)
 			st := w.zstdBody(dec, rng.IntN(2) == 0)
 			st.noCL = rng.IntN(2) == 0
 			c.MaxDecomp = st.decodedLen + int64(rng.IntN(3)) - 1
 			c.finalEncoded, c.finalDecoded = st.encodedLen, st.decodedLen
 			final = []step{st}
-			notes = append(notes, fmt.Sprintf("zstd body %d -> %d bytes, decompression cap %d", st.encodedLen, st.decodedLen, c.MaxDecomp))
-			r.Class(fmt.Sprintf("decoded-vs-decompression-cap:%+d", st.decodedLen-c.MaxDecomp))
+			declared := "declared-size"
+			if !bytes.Equal(st.body, w.enc.EncodeAll(dec, nil)) {
+				declared = "streamed-no-size"
+			}
+			notes = append(notes, fmt.Sprintf("zstd body (%s) %d -> %d bytes, decompression cap %d", declared, st.encodedLen, st.decodedLen, c.MaxDecomp))
+			r.Class(fmt.Sprintf("decoded-vs-decompression-cap:%+d:%s", st.decodedLen-c.MaxDecomp, declared))
 		case mode < 5: // zstd bomb
 			size := (1 + rng.IntN(8)) << 20
 			dec := append(append([]byte(nil), w.ipc...), make([]byte, size)...)
@@ -876,7 +886,7 @@ func main() {
 		"rejected-cross-origin-target", "rejected-relative-target", "clean-chain-of-5-followed", "chain-longer-than-budget-refused",
 		"followed-exactly-max-redirects", "used-all-allowed-attempts", "attempts-bounded-by-maxretries-1", "fetch-succeeded-after-redirects",
 		"body-exactly-at-fetch-cap-accepted", "decoded-exactly-at-decompression-cap-accepted",
-		"body-vs-fetch-cap:+1:cl=true", "body-vs-fetch-cap:+1:cl=false", "decoded-vs-decompression-cap:+1", "zstd-bomb",
+		"body-vs-fetch-cap:+1:cl=true", "body-vs-fetch-cap:+1:cl=false", "decoded-vs-decompression-cap:+1:declared-size", "decoded-vs-decompression-cap:+1:streamed-no-size", "zstd-bomb",
 		"error-says-fetch-cap", "error-says-decompression-cap", "error-says-redirect-limit", "error-says-rejected-by-validator",
 		"redirect-loop", "transient-failures:5", "transient-failures:0", "first-url-uppercase-scheme")
 	r.Assume("the logging RoundTripper sits directly above net/http's Transport: 'sent' = RoundTrip calls issued by the fetcher's http.Client; req.Response == nil marks the first request of an attempt (net/http sets it on redirect-following requests)")
